@@ -8,12 +8,19 @@
      (2) critical sections exclude each other and are ordered (C17, Mutex.v);
      (3) work done outside the lock touches only the private slot of a waiter that was taken
          off the list under the lock, by exactly one peer, race-free (C07, Sig.v);
+     (4) composition of (2): any fine-grained interleaving of lock events, micro-operations on the
+         protected data inside critical sections and private steps has exactly the final data and
+         results of the execution in which every critical section runs atomically, in program order
+         (Reduce.v, for any number of threads, any data and any micro-operations);
    and what a critical section does to the logical state is Atomic.astep (H1 correspondence).
    The composition is validated on every run by H2: the results of every scheduled execution of
    the real crate are searched for in the set of operation-level interleavings of Atomic.astep. *)
 From KV Require Import Mem Mutex Sig.
 From KV.gen Require Import Gen_Sites Gen_Skel.
-From KV.proofs Require Import LockProfile MutexProof SigProof.
+From KV Require Import Reduce.
+From KV.proofs Require Import LockProfile MutexProof SigProof ReduceProof.
+From Coq Require Import List NArith.
+Import ListNotations.
 
 Theorem c03_partial_one_critical_section_per_entry_point : offenders = [].
 Proof. exact one_critical_section_per_entry_point. Qed.
@@ -26,9 +33,41 @@ Theorem c03_partial_outside_the_lock_only_the_claimed_signal :
   forall i s, In i sinits -> reach (snext actual_ords) i s -> safe s = true.
 Proof. exact signal_protocol_safe. Qed.
 
+
+Theorem c03_partial_critical_sections_are_atomic :
+  forall (S L O : Type) (exec : O -> S -> L -> S * L) (o_s o_u : ordering) sh loc tr s',
+  frun S L O exec o_s o_u (finit S L sh loc) tr = Some s' -> lock_free (f_m _ _ s') ->
+  let c' := crun S L O exec (cinit S L sh loc) (ser L O o_s o_u minit [] tr) in
+  c_sh _ _ c' = f_sh _ _ s' /\ forall u, c_loc _ _ c' u = f_loc _ _ s' u.
+Proof. exact critical_sections_are_atomic. Qed.
+
+Theorem c03_partial_serialisation_keeps_program_order :
+  forall (S L O : Type) (exec : O -> S -> L -> S * L) (o_s o_u : ordering) sh loc tr s',
+  frun S L O exec o_s o_u (finit S L sh loc) tr = Some s' -> lock_free (f_m _ _ s') ->
+  forall t, cproj L O t (ser L O o_s o_u minit [] tr) = proj L O t tr.
+Proof. exact serialisation_keeps_program_order. Qed.
+
 Print Assumptions c03_partial_one_critical_section_per_entry_point.
 Print Assumptions c03_partial_critical_sections_exclude_each_other.
 Print Assumptions c03_partial_outside_the_lock_only_the_claimed_signal.
 
 Example c03_witness : acquires ["acquire_internal"; "if x {"; "  drop(internal)"; "  acquire_internal"; "}"]%string = 2.
 Proof. vm_compute. reflexivity. Qed.
+Print Assumptions c03_partial_critical_sections_are_atomic.
+Print Assumptions c03_partial_serialisation_keeps_program_order.
+
+(* a queue as protected data, the last result as local data; thread 2 fails an attempt and pauses while
+   thread 1 is between its two micro-operations; the serialisation puts thread 1's section first *)
+Inductive qop := QPush (x : N) | QPop.
+Definition qexec (o : qop) (q : list N) (l : N) : list N * N :=
+  match o with QPush x => (q ++ [x], l) | QPop => match q with [] => ([], 0%N) | x :: r => (r, x) end end.
+Example c03_reduce_witness :
+  let tr := [(1, FLock N qop (MLockCas true)); (1, FOp N qop (QPush 7)); (2, FLock N qop (MLockCas false));
+             (2, FLock N qop MPause); (2, FLocal N qop (fun _ => 9)); (1, FOp N qop (QPush 8)); (1, FLock N qop MUnlock);
+             (2, FLock N qop (MLockCas true)); (2, FOp N qop QPop); (2, FLock N qop MUnlock)]%N in
+  option_map (fun s => (f_sh _ _ s, f_loc _ _ s 1, f_loc _ _ s 2)%N)
+     (frun (list N) N qop qexec Acquire Release (finit (list N) N [] (fun _ => 0%N)) tr) = Some ([8], 0, 7)%N
+  /\ map fst (ser N qop Acquire Release minit [] tr) = [2; 1; 2]%N
+  /\ (let c := crun (list N) N qop qexec (cinit (list N) N [] (fun _ => 0%N)) (ser N qop Acquire Release minit [] tr) in
+      (c_sh _ _ c, c_loc _ _ c 1, c_loc _ _ c 2)%N) = ([8], 0, 7)%N.
+Proof. vm_compute. repeat split. Qed.
